@@ -22,6 +22,7 @@ Requests
   scanmany <fuel> <Re> <n> <alphabet>       ok <result> <result> …    result = tok;tok;…!<end>, tok = a.b.c (code points)
   scanvec <fuel> <Re>;<Re>;… <text>         ok name:tok;…!<end>
   specmany <Syn> <n> <alphabet>     ok <bits>   Spec.Lang.matchB on the standard meaning of the tree
+  smart O|A|C <Re> <Re>             ok <Re>     logical_or / logical_and / concatenate
   langmany <Re> <n> <alphabet>      ok <bits>   Spec.Lang.matchB on the denotation of a Regex object
 -/
 open Proto Model.Regex Model.RegexParse Spec.Lang
@@ -133,6 +134,34 @@ def showDFA (d : DFA Bool) : String :=
   let ts := "/".intercalate (d.trans.map fun row => ",".intercalate (row.map fun t => s!"{t.1}:{t.2.1}:{t.2.2}"))
   s!"{ts} {bits d.accepts} {d.error}"
 
+def reSize : Re → Nat
+  | .eps => 1
+  | .set _ => 1
+  | .star e => reSize e + 1
+  | .cat l r => reSize l + reSize r + 1
+  | .or l r => reSize l + reSize r + 1
+  | .and l r => reSize l + reSize r + 1
+
+/-- Budget check before `Model.Regex.compile` is called: iterate `processState` (what `loop` does)
+and stop as soon as `fuel` states were expanded or a pending state has more than `limit` nodes
+(without ACI-normalisation the derivatives of some expressions double in size at every step). -/
+def withinBudget (limit : Nat) (root : Re) : Nat → CState Re → Bool
+  | fuel, st =>
+    match st.stack with
+    | [] => true
+    | state :: rest =>
+      match fuel with
+      | 0 => false
+      | fuel + 1 =>
+        let st' := processState reOps root { st with stack := rest } state
+        if st'.stack.any (fun x => decide (reSize x > limit)) then false
+        else withinBudget limit root fuel st'
+
+def sizeLimit : Nat := 4000
+
+def compileB (fuel : Nat) (r : Re) : Except Err (DFA Bool) :=
+  if withinBudget sizeLimit r fuel (addState ⟨[], [], []⟩ r) then compile fuel r else .error .Fuel
+
 def splitSemi (s : String) : List String := (s.splitOn ";").filter (· ≠ "")
 
 def step (line : String) : String :=
@@ -158,12 +187,12 @@ def step (line : String) : String :=
       | some r => "ok " ++ ";".intercalate ((derivativeClasses r).map showSet)
       | none => "bad-op"
   | ["compile", f, r] => match nat? f, re? r with
-      | some f, some r => (match compile f r with
+      | some f, some r => (match compileB f r with
           | .ok d => "ok " ++ showDFA d
           | .error e => showErr e)
       | _, _ => "bad-op"
   | ["acceptsmany", f, r, n, al] => match nat? f, re? r, nat? n, intList? al with
-      | some f, some r, some n, some al => (match compile f r with
+      | some f, some r, some n, some al => (match compileB f r with
           | .ok d => "ok " ++ String.ofList ((allStrings al n).map fun s =>
               match accepts d s with
               | .ok true => '1'
@@ -172,7 +201,7 @@ def step (line : String) : String :=
           | .error e => showErr e)
       | _, _, _, _ => "bad-op"
   | ["scanmany", f, r, n, al] => match nat? f, re? r, nat? n, intList? al with
-      | some f, some r, some n, some al => (match compile f r with
+      | some f, some r, some n, some al => (match compileB f r with
           | .ok d => "ok " ++ " ".intercalate ((allStrings al n).map fun s =>
               let res := scan d s
               ";".intercalate (res.1.map showTok) ++ "!" ++ res.2.name)
@@ -187,6 +216,13 @@ def step (line : String) : String :=
               "ok " ++ ";".intercalate (res.1.map fun p => s!"{p.1}:{showTok p.2}") ++ "!" ++ res.2.name
           | .error e => showErr e)
       | _, _, _ => "bad-op"
+  | ["smart", op, a, b] => match re? a, re? b with
+      | some a, some b =>
+        if op = "O" then "ok " ++ showRe (logicalOr a b)
+        else if op = "A" then "ok " ++ showRe (logicalAnd a b)
+        else if op = "C" then "ok " ++ showRe (concatenate a b)
+        else "bad-op"
+      | _, _ => "bad-op"
   | ["specmany", t, n, al] => match syn? t, nat? n, intList? al with
       | some t, some n, some al => "ok " ++ bits ((allStrings al n).map (matchB t.rx))
       | _, _, _ => "bad-op"
